@@ -116,7 +116,8 @@ def worker_name(name, oid):
     """The name of a worker in the records: the process name (without the run
     prefix); copies of a process (the daughters of a division by key) carry the
     name of the original and are told apart by the identity of their object."""
-    base = name.split('_', 1)[1]
+    # (a process that should not have a worker at all has no run prefix)
+    base = name.split('_', 1)[1] if '_' in name else name
     if oid is None:
         return base
     if oid not in _OIDS:
